@@ -19,6 +19,7 @@ import math
 import sys
 import time
 from collections import Counter
+from fractions import Fraction
 
 import numpy as np
 
@@ -88,6 +89,132 @@ def point_sets(fam, dim, n):
     return list(itertools.combinations_with_replacement(cells, n))
 
 
+# ------------------------------------------------- round-3 families (generic axes)
+#
+# A round-3 configuration carries its own axes (``cfg["axes"]`` = one value list per dimension), the container
+# dtype of the build data and of the fill data (``build_dtype`` / ``fill_dtype``), the fill sets it uses and a
+# reading policy.  Every value handed to the implementation is exactly representable in the dtype it is handed
+# over in; the model always routes the exact numbers (Fractions of the float64 images).
+
+DTYPES = {"float64": np.float64, "float32": np.float32, "int64": np.int64, "int32": np.int32, "int8": np.int8}
+SETS3 = ("build", "shift", "outside", "mid", "mirror")
+COLS = ("alpha", "beta", "gamma")  # input_cols handed to to_plotly_dataframe (no name is a substring of another)
+
+
+def _is_int(dt):
+    return dt is not None and dt.startswith("int")
+
+
+def as_data(pts, dim, dtype):
+    """The point list as an (n, dim) array of the stated dtype; refuses values the dtype cannot hold exactly."""
+    a = np.array(pts, dtype=float).reshape(len(pts), dim)
+    if dtype in (None, "float64"):
+        return a
+    b = a.astype(DTYPES[dtype])
+    if not np.array_equal(b.astype(float), a):
+        raise HarnessError("alphabet value not representable in %s: %r" % (dtype, pts))
+    return b
+
+
+def to_dtype(v, dt):
+    """Nearest value representable in dtype dt (as a Python float)."""
+    if _is_int(dt):
+        return float(int(np.rint(v)))
+    if dt == "float32":
+        return float(np.float32(v))
+    return float(v)
+
+
+def le_in(v, dt):
+    """Largest value representable in dt that is <= v."""
+    v = float(v)
+    if _is_int(dt):
+        return float(math.floor(v))
+    if dt == "float32":
+        x = np.float32(v)
+        if float(x) > v:
+            x = np.nextafter(x, np.float32(-np.inf))
+        return float(x)
+    return v
+
+
+def gt_in(v, dt):
+    """Smallest value representable in dt that is > v."""
+    v = float(v)
+    if _is_int(dt):
+        return float(math.floor(v) + 1)
+    if dt == "float32":
+        x = np.float32(v)
+        if float(x) <= v:
+            x = np.nextafter(x, np.float32(np.inf))
+        return float(x)
+    return float(np.nextafter(v, math.inf))
+
+
+def lt_in(v, dt):
+    """Largest value representable in dt that is < v."""
+    v = float(v)
+    if _is_int(dt):
+        return float(math.ceil(v) - 1)
+    if dt == "float32":
+        x = np.float32(v)
+        if float(x) >= v:
+            x = np.nextafter(x, np.float32(-np.inf))
+        return float(x)
+    return float(np.nextafter(v, -math.inf))
+
+
+def axis_family(name, m):
+    """Axis values of a round-3 family (m values)."""
+    i = list(range(m))
+    if name == "int":
+        return [float(k) for k in i]
+    if name == "x8":
+        return [8.0 * k for k in i]
+    if name == "affine":
+        return [0.37 * k + 0.11 for k in i]
+    if name == "negint":  # negative midpoints with fraction 1/2: truncation toward zero differs from floor
+        return [-3.0, -2.0, 0.0, 1.0][:m] if m == 4 else [-2.0, 0.0, 1.0][:m]
+    if name == "wideint8":  # range wider than int8's positive half: max - min overflows in int8 arithmetic
+        return [-100.0, -3.0, 2.0, 100.0][:m] if m == 4 else [-100.0, 95.0, 100.0][:m]
+    if name == "f32":  # non-dyadic values representable in float32
+        return [float(np.float32(0.37 * k + 0.11)) for k in i]
+    if name == "big":  # level 1e6, spread < 2e-3: 1 ulp is 1.2e-10, i.e. 3e-7 of the spacing
+        return [1e6 + 3.7e-4 * k + 1.1e-4 for k in i]
+    if name == "tiny":  # scale 1e-13 around 0
+        return [3.7e-13 * k + 1.1e-13 for k in i]
+    raise ValueError(name)
+
+
+def point_sets3(cfg, n):
+    """All multisets (cfg["distinct"]: all sets) of n cells of the grid spanned by cfg["axes"] (index tuples)."""
+    cells = list(itertools.product(*[range(len(a)) for a in cfg["axes"]]))
+    if cfg.get("distinct"):
+        return list(itertools.combinations(cells, n))
+    return list(itertools.combinations_with_replacement(cells, n))
+
+
+def mid_predicate(cfg, build_dtype):
+    """Tolerance under which an observed split value is "the midpoint" in a round-3 family.
+
+    A correct implementation computes min + (max - min) / 2 (or (min + max) / 2, min / 2 + max / 2) in the
+    arithmetic of the data: float32 for float32 data, float64 otherwise (integers are promoted by the true
+    division).  Each of these formulas performs at most two roundings of quantities not larger than
+    M = max(|min|, |max|) (halving is exact), so the result is within 1 ulp(M) <= eps * M of the exact midpoint;
+    ``mid_ulps`` (4) leaves room for a third rounding.  The 1e-9 relative rule of the round-1 families is useless at
+    level 1e6 / spread 1e-3 (it admits any value in the node's range) and wrong for float32 data (eps = 1.2e-7)."""
+    k = cfg.get("mid_ulps")
+    if not k:
+        return None
+    eps = Fraction(1, 2 ** 23) if build_dtype == "float32" else Fraction(1, 2 ** 52)
+
+    def ok(mid, lo, hi, exact):
+        m = Fraction(float(mid))
+        return lo <= m <= hi and abs(m - exact) <= k * eps * max(abs(lo), abs(hi))
+
+    return ok
+
+
 # ------------------------------------------------------------- public tree
 
 
@@ -133,7 +260,7 @@ class PartSys(System):
 
     def init(self, cfg):
         return {"kp": None, "tree": None, "counts": None, "info": None, "seen_kl": set(), "seen_df": set(),
-                "seen_dist": set(), "filled": {}}
+                "seen_dist": set(), "filled": {}, "probed": set()}
 
     def alphabet(self, cfg, state, pos):
         return []
@@ -149,7 +276,7 @@ class PartSys(System):
         dim = cfg["dim"]
         ub = cfg["count_ubound"]
         kp = KDQTreePartitioner(count_ubound=ub, cutpoint_proportion_lbound=cfg["lbound"])
-        data = np.array(pts, dtype=float).reshape(len(pts), dim)
+        data = as_data(pts, dim, ev.get("dtype"))
         old = sys.getrecursionlimit()
         sys.setrecursionlimit(RECURSION_LIMIT)
         try:
@@ -182,12 +309,13 @@ class PartSys(System):
         mids = {p: (None if n.midpoint_at_axis is None else float(n.midpoint_at_axis)) for p, n in info.items()}
         # (a) midpoints, (b) small nodes, both sides non-empty: validated while routing
         try:
-            tree = ModelTree(pts, dim, ub, shape, mids=mids)
+            tree = ModelTree(pts, dim, ub, shape, mids=mids, mid_ok=mid_predicate(cfg, ev.get("dtype")))
         except ShapeError as e:
             raise Violation(e.sub, e.msg, expected=e.expected, observed=e.observed)
         counts = Counts(tree)
         state.update(kp=kp, tree=tree, counts=counts, info=info, struct=_struct_sig(info), pts=pts)
         state["filled"] = {"build": len(pts)}
+        state["probed"] = set()
         # (c) counts per node
         self._compare_counts(state, "after build")
         # (f) leaves left-to-right
@@ -199,9 +327,13 @@ class PartSys(System):
                 expected=[tree.ref[p] for p in tree.leaves],
                 observed=[l.num_samples_in_compared_subtrees.get("build") for l in kp.leaves],
             )
-        self._leaf_counts(state, "build")
-        self._kl(state, "build", "build", ctx)
-        self._plotly(state, "build", None, ctx)
+        if cfg.get("reads") == "all":
+            self._read_suite(cfg, state, 0, ctx)
+        else:
+            self._leaf_counts(state, "build")
+            self._kl(state, "build", "build", ctx)
+            self._plotly(state, "build", None, ctx)
+        self._round3_counters(cfg, state, ev, ctx)
         if shape is not None:
             ctx.mark("trees_with_split")
         if len(tree.nodes) >= 7:
@@ -222,7 +354,7 @@ class PartSys(System):
         pts = [tuple(float(v) for v in p) for p in ev["pts"]]
         tid = ev["id"]
         reset = bool(ev["reset"])
-        data = np.array(pts, dtype=float).reshape(len(pts), cfg["dim"])
+        data = as_data(pts, cfg["dim"], ev.get("dtype"))
         try:
             kp.fill(data, tid, reset)
         except Exception as e:
@@ -239,16 +371,28 @@ class PartSys(System):
             raise Violation("fill-changes-structure", "fill changed the split structure of the tree")
         # (c) (d) (e)
         self._compare_counts(state, "after fill(%s, id=%r, reset=%r)" % (ev["set"], tid, reset))
-        for i in counts.by_id:
-            self._leaf_counts(state, i)
-        # (g) divergences involving the filled id
-        for other in list(counts.by_id):
-            self._kl(state, tid, other, ctx)
-            if other != tid:
-                self._kl(state, other, tid, ctx)
-        # (h)
         mode = cfg.get("plotly", "min")
-        if mode == "full" and pos <= cfg.get("plotly_depth", 3):
+        if cfg.get("reads") == "all":
+            # every public reading after every call, nothing memoised, in an order that depends on the position
+            self._read_suite(cfg, state, pos, ctx)
+            self._compare_counts(state, "after the read-only calls that followed fill(%s, id=%r, reset=%r)" % (ev["set"], tid, reset))
+            mode = "none"
+        else:
+            for i in counts.by_id:
+                self._leaf_counts(state, i)
+            # (g) divergences involving the filled id
+            for other in list(counts.by_id):
+                self._kl(state, tid, other, ctx)
+                if other != tid:
+                    self._kl(state, other, tid, ctx)
+        if ev.get("dtype") not in (None, "float64"):
+            ctx.count("fills_with_dtype_" + ev["dtype"])
+        if "axes" in cfg and (ev.get("dtype") or "float64") != (cfg.get("build_dtype") or "float64"):
+            ctx.count("fills_whose_dtype_differs_from_the_build_data")
+        # (h)
+        if mode == "none":
+            pass
+        elif mode == "full" and pos <= cfg.get("plotly_depth", 3):
             for other in list(counts.by_id):
                 self._plotly(state, other, tid, ctx, cached=True)
                 if other != tid:
@@ -265,6 +409,11 @@ class PartSys(System):
             self._plotly(state, "build", "a", ctx)
             if max(len(pth) for pth in state["tree"].nodes) > 1:
                 self._plotly(state, "build", "a", ctx, max_depth=1)
+            if "axes" in cfg:
+                # round-3 families: the filled id as the reference side, the listing cut at the root, column names
+                self._plotly(state, "a", "build", ctx, max_depth=2, cols=True)
+                self._plotly(state, "a", None, ctx, max_depth=0)
+                self._plotly(state, "a", "b", ctx, cols=True)
         # coverage counters
         if had and not reset:
             ctx.mark("accumulating_fills")
@@ -292,9 +441,15 @@ class PartSys(System):
         counts = state["counts"]
         tree = state["tree"]
         info = state["info"]
+        # ids the harness has *read* (leaf_counts / kl_distance) without ever filling them: the property says nothing
+        # about what such a read leaves behind; an entry 0 for such an id counts no point and is not judged
+        probed = [i for i in state.get("probed", ()) if i not in counts.by_id]
         for path in tree.nodes:
             exp = {i: c[path] for i, c in counts.by_id.items()}
             obs = dict(info[path].num_samples_in_compared_subtrees)
+            for i in probed:
+                if obs.get(i) == 0:
+                    del obs[i]
             if obs != exp or any(not isinstance(v, (int, np.integer)) for v in obs.values()):
                 sub = "node-counts"
                 if path in tree.splits:
@@ -314,10 +469,12 @@ class PartSys(System):
             l = info[path + "L"].num_samples_in_compared_subtrees
             r = info[path + "R"].num_samples_in_compared_subtrees
             for i in n:
+                if i in probed:
+                    continue
                 if n[i] != l[i] + r[i]:
                     raise Violation("count-conservation", "%s: node %r id %r: %r != %r + %r" % (when, path, i, n[i], l[i], r[i]))
 
-    def _leaf_counts(self, state, tid):
+    def _leaf_counts(self, state, tid, memo=True):
         kp = state["kp"]
         exp = state["counts"].leaf_counts(tid)
         obs = kp.leaf_counts(tid)
@@ -331,21 +488,57 @@ class PartSys(System):
                 observed=sum(obs),
             )
         key = tuple(exp)
-        if key not in state["seen_dist"]:
+        if not memo or key not in state["seen_dist"]:
             fn = getattr(KDQTreePartitioner, "_distn_from_counts", None)
             if fn is not None:
                 d = [float(v) for v in fn(list(exp))]
                 e = [float(f) for f in corrected(exp)]
                 if not close(d, e) or not close(sum(d), 1.0):
                     raise Violation("corrected-distribution", "distribution of counts %r is %r, expected (c+1/2)/(n+L/2) = %r" % (exp, d, e), expected=e, observed=d)
-            state["seen_dist"].add(key)
+            if memo:
+                state["seen_dist"].add(key)
 
-    def _kl(self, state, id1, id2, ctx):
+    def _leaf_counts_unfilled(self, state, tid, ctx):
+        """leaf_counts of an id nothing was ever filled under.  The property fixes no behaviour (the pinned code
+        raises KeyError); what it does exclude is a non-zero count for an id that holds no point."""
+        state["probed"].add(tid)
+        ctx.count("reads_of_never_filled_ids")
+        try:
+            obs = state["kp"].leaf_counts(tid)
+        except Exception:
+            ctx.count("reads_of_never_filled_ids_refused")
+            return
+        if obs is None:
+            return
+        if len(obs) != len(state["tree"].leaves) or any(int(v) != 0 for v in obs):
+            raise Violation(
+                "leaf-counts-unfilled",
+                "leaf_counts(%r) = %r although no point was ever filled under %r" % (tid, list(obs), tid),
+                expected=[0] * len(state["tree"].leaves),
+                observed=list(obs),
+            )
+
+    def _kl(self, state, id1, id2, ctx, memo=True):
         counts = state["counts"]
-        c1 = counts.leaf_counts(id1)
-        c2 = counts.leaf_counts(id2)
+        zeros = [0] * len(state["tree"].leaves)
+        unfilled = id1 not in counts.by_id or id2 not in counts.by_id
+        c1 = counts.leaf_counts(id1) if id1 in counts.by_id else zeros
+        c2 = counts.leaf_counts(id2) if id2 in counts.by_id else zeros
         key = (tuple(c1), tuple(c2))
-        if key in state["seen_kl"]:
+        if memo and key in state["seen_kl"]:
+            return
+        if unfilled:
+            # an id without points: refusing is fine; a number must be the divergence against all-zero counts
+            state["probed"].update(i for i in (id1, id2) if i not in counts.by_id)
+            ctx.count("reads_of_never_filled_ids")
+            try:
+                obs = state["kp"].kl_distance(id1, id2)
+            except Exception:
+                ctx.count("reads_of_never_filled_ids_refused")
+                return
+            if obs is not None and not close(float(obs), kl_counts(c1, c2)):
+                raise Violation("kl-unfilled", "kl_distance(%r,%r) = %r with a never-filled id; leaf counts %r / %r give %r"
+                                % (id1, id2, obs, c1, c2, kl_counts(c1, c2)), expected=kl_counts(c1, c2), observed=obs)
             return
         try:
             obs = state["kp"].kl_distance(id1, id2)
@@ -363,9 +556,10 @@ class PartSys(System):
                 raise Violation("kl-equal-counts", "kl_distance of equal counts %r is %r, expected 0" % (c1, obs), expected=0.0, observed=obs)
         else:
             ctx.count("kl_unequal_counts")
-        state["seen_kl"].add(key)  # only checks that passed are cached
+        if memo:
+            state["seen_kl"].add(key)  # only checks that passed are cached
 
-    def _plotly(self, state, id1, id2, ctx, cached=False, max_depth=None):
+    def _plotly(self, state, id1, id2, ctx, cached=False, max_depth=None, cols=False):
         counts = state["counts"]
         tree = state["tree"]
         ref = counts.by_id[id1]
@@ -374,23 +568,143 @@ class PartSys(System):
             key = (tuple(ref.values()), None if test is None else tuple(test.values()), id2 is None, max_depth)
             if key in state["seen_df"]:
                 return
+        kw = {}
+        if max_depth is not None:
+            kw["max_depth"] = max_depth
+        names = None
+        if cols:
+            names = list(COLS[: tree.dim])
+            kw["input_cols"] = names
+        what = "to_plotly_dataframe(%r, %r%s%s)" % (
+            id1, id2, "" if max_depth is None else ", max_depth=%d" % max_depth, "" if not cols else ", input_cols=%r" % (names,))
         try:
-            if max_depth is None:
-                df = state["kp"].to_plotly_dataframe(tree_id1=id1, tree_id2=id2)
-            else:
-                df = state["kp"].to_plotly_dataframe(tree_id1=id1, tree_id2=id2, max_depth=max_depth)
+            df = state["kp"].to_plotly_dataframe(tree_id1=id1, tree_id2=id2, **kw)
+            if max_depth is not None:
                 ctx.count("plotly_with_max_depth")
             rows = df_rows(df)
         except Violation:
             raise
         except Exception as e:
-            raise Violation("plotly-raises", "to_plotly_dataframe(%r, %r) raised %r" % (id1, id2, e), observed=repr(e))
+            raise Violation("plotly-raises", "%s raised %r" % (what, e), observed=repr(e))
         ctx.count("plotly_evaluations")
-        check_rows(rows, tree, ref, test, id2 is not None, "to_plotly_dataframe(%r, %r%s)" % (id1, id2, "" if max_depth is None else ", max_depth=%d" % max_depth), max_depth)
+        if max_depth is None or max_depth > 0:
+            check_rows(rows, tree, ref, test, id2 is not None, what, max_depth)
+        else:
+            # max_depth = 0: "up to depth 0" is the root alone; the pinned code reads 0 as "no limit" and lists the
+            # whole tree.  The property demands every listed node once with the right numbers, not the cut: both
+            # listings are accepted (and told apart in the counters).
+            whole = set(rows) == set(tree.nodes)
+            ctx.count("plotly_with_max_depth_0")
+            if len(tree.nodes) > 1:
+                ctx.count("plotly_max_depth_0_lists_whole_tree" if whole else "plotly_max_depth_0_lists_root_only")
+            check_rows(rows, tree, ref, test, id2 is not None, what, None if whole else 0)
+        if names is not None:
+            ctx.count("plotly_with_input_cols")
+            for path, r in rows.items():
+                if path == "":
+                    continue
+                axis = tree.splits[path[:-1]][0]
+                label = str(r["name"])
+                if label.split(" ")[0] != names[axis] or ("<=" in label) != path.endswith("L"):
+                    raise Violation(
+                        "plotly-name",
+                        "%s: node %r is the %s cell of a split on feature %d (%r) but is labelled %r"
+                        % (what, path, "lower" if path.endswith("L") else "upper", axis, names[axis], label),
+                        expected="%s %s ..." % (names[axis], "<=" if path.endswith("L") else ">"),
+                        observed=label,
+                    )
+        if id1 != "build":
+            ctx.count("plotly_reference_side_is_a_filled_id")
         if cached:
             state["seen_df"].add(key)
         if id2 is not None and test is not None and any(test[p] != ref[p] for p in tree.nodes):
             ctx.count("plotly_with_count_differences")
+
+    # ........................................................ round 3: all reads
+    def _read_suite(self, cfg, state, pos, ctx):
+        """Every public reading of the tree, nothing memoised: leaf_counts of every id (filled or not), kl_distance
+        of every ordered id pair, and a rotating selection of to_plotly_dataframe calls (reference side = every filled
+        id, test side = None / every id, max_depth None/0/1/2, with and without input_cols).  The order of the calls is
+        a function of (configuration, position, tree size) only, so an explored path makes exactly the calls of its
+        fresh re-execution; three orders (as listed, reversed, interleaved) rotate over the positions of a history."""
+        counts = state["counts"]
+        tree = state["tree"]
+        ops = [("lc", i) for i in IDS]
+        ops += [("kl", i, j) for i in IDS for j in IDS]
+        combos = [(md, c) for md in (None, 0, 1, 2) for c in (False, True)]
+        rot = cfg.get("read_rot", 0) + pos + len(tree.leaves)
+        pl = []
+        for a, id1 in enumerate(IDS):
+            if id1 not in counts.by_id:
+                continue
+            for b, id2 in enumerate((None,) + IDS):
+                md, c = combos[(rot + 3 * a + b) % len(combos)]
+                pl.append(("pl", id1, id2, md, c))
+        k = cfg.get("plotly_per_step", 2)
+        start = (rot * k) % len(pl)
+        ops += [pl[(start + t) % len(pl)] for t in range(min(k, len(pl)))]
+        order = ("listed", "reversed", "interleaved")[rot % 3]
+        if order == "reversed":
+            ops.reverse()
+        elif order == "interleaved":
+            step = next(q for q in (7, 5, 11, 13, 1) if math.gcd(q, len(ops)) == 1)
+            ops = [ops[(t * step) % len(ops)] for t in range(len(ops))]
+        ctx.count("read_suites_in_order_" + order)
+        for op in ops:
+            if op[0] == "lc":
+                if op[1] in counts.by_id:
+                    self._leaf_counts(state, op[1], memo=False)
+                else:
+                    self._leaf_counts_unfilled(state, op[1], ctx)
+            elif op[0] == "kl":
+                self._kl(state, op[1], op[2], ctx, memo=False)
+            else:
+                self._plotly(state, op[1], op[2], ctx, max_depth=op[3], cols=op[4])
+        # read-only: the split structure must be what it was
+        if _struct_sig(read_public(state["kp"])[1]) != state["struct"]:
+            raise Violation("read-changes-structure", "a read-only call changed the split structure of the tree")
+
+    def _round3_counters(self, cfg, state, ev, ctx):
+        """Coverage counters of the round-3 families (build step)."""
+        if "axes" not in cfg:
+            return
+        tree = state["tree"]
+        dt = ev.get("dtype") or "float64"
+        ctx.count("builds_with_dtype_" + dt)
+        if cfg["dim"] == 3:
+            ctx.count("trees_3d")
+            for p, (axis, _) in tree.splits.items():
+                if axis == 2:
+                    ctx.count("splits_on_third_axis")
+                if len(p) >= 3 and axis == 0:
+                    ctx.count("splits_cycling_back_to_first_axis")
+        if tree.splits:
+            level = max(abs(v) for p in state["pts"] for v in p)
+            spread = max(v for p in state["pts"] for v in p) - min(v for p in state["pts"] for v in p)
+            if level >= 1e5 and spread < 1.0:
+                ctx.count("split_trees_at_level_1e6")
+            if level < 1e-8:
+                ctx.count("split_trees_at_scale_1e-13")
+            if dt != "float64":
+                ctx.count("split_trees_built_from_" + dt)
+        if cfg["count_ubound"] >= len(state["pts"]) and len(set(state["pts"])) > 1:
+            ctx.count("single_leaf_because_count_ubound_exceeds_data")
+        if cfg.get("lb_family"):
+            # cutpoint_proportion_lbound: where does the bound int(lb * range) meet the cell sizes of this tree?
+            pts = state["pts"]
+            for path in tree.nodes:
+                axis = len(path) % cfg["dim"]
+                inside = [x for x in pts if tree.leaf_of(x).startswith(path)]
+                vals = [x[axis] for x in inside]
+                cell = (max(vals) - min(vals)) / 2
+                bound = int(cfg["lbound"] * (max(x[axis] for x in pts) - min(x[axis] for x in pts)))
+                if len(set(inside)) > cfg["count_ubound"] and cell > 0:
+                    if cell == bound:
+                        ctx.count("lbound_cell_size_equals_bound")
+                    if path not in tree.splits and cell <= bound:
+                        ctx.count("lbound_stopped_a_node_below_the_root" if path else "lbound_stopped_the_root")
+                    if path in tree.splits and bound > 0:
+                        ctx.count("lbound_positive_but_not_binding")
 
 
 def df_rows(df):
@@ -514,6 +828,70 @@ def fill_events(state, fam, dim):
     return evs
 
 
+def fill_events3(state, cfg):
+    """Fill events of a round-3 configuration: sets cfg["sets"] x ids x reset, every value cast to the fill dtype.
+
+    build   the build points (only when the fill dtype holds them exactly)
+    shift   every point moved by 0.6 of the axis spacing, plus two points next to the root split value: the
+            neighbours of that value *in the fill dtype* (for integers floor / floor + 1, for float32 the two adjacent
+            float32 numbers, for float64 one ulp to either side)
+    outside corners outside the built range
+    mid     one point sitting on (the largest fill-dtype value not above) the split values down the left spine
+    mirror  the build points reflected inside the built range: same number of points, other cells"""
+    axes = cfg["axes"]
+    dim = cfg["dim"]
+    fdt = cfg.get("fill_dtype") or "float64"
+    pts = state["pts"]
+    info = state["info"]
+    root = info[""]
+    gap = [min(b - a for a, b in zip(ax, ax[1:])) for ax in axes]
+    lo = [ax[0] for ax in axes]
+    hi = [ax[-1] for ax in axes]
+
+    def cast(rows):
+        return [[to_dtype(v, fdt) for v in r] for r in rows]
+
+    sets = {}
+    b = cast(pts)
+    if [tuple(r) for r in b] == [tuple(p) for p in pts]:
+        sets["build"] = b
+    shift = cast([[v + 0.6 * gap[d] for d, v in enumerate(p)] for p in pts])
+    if root.axis is not None:
+        mid0 = float(root.midpoint_at_axis)
+        for mv in (lt_in(mid0, fdt), gt_in(mid0, fdt)):
+            q = cast([pts[0]])[0]
+            q[root.axis] = mv
+            shift.append(q)
+    sets["shift"] = shift
+    below = [to_dtype(lo[d] - gap[d], fdt) for d in range(dim)]
+    above = [to_dtype(hi[d] + gap[d], fdt) for d in range(dim)]
+    corners = [below, above]
+    if dim > 1:
+        corners.append([below[d] if d % 2 == 0 else above[d] for d in range(dim)])
+        corners.append([above[d] if d % 2 == 0 else below[d] for d in range(dim)])
+    sets["outside"] = corners
+    q = cast([pts[0]])[0]
+    path, done = "", set()
+    while info.get(path) is not None and info[path].axis is not None and info[path].axis not in done:
+        nd = info[path]
+        q[nd.axis] = le_in(float(nd.midpoint_at_axis), fdt)
+        done.add(nd.axis)
+        path += "L"  # the point is at or below the split value, hence in the lower cell
+    sets["mid"] = [q]
+    sets["mirror"] = cast([[lo[d] + hi[d] - v for d, v in enumerate(p)] for p in pts])
+    evs = []
+    for name in cfg.get("sets", SETS3):
+        if name not in sets:
+            continue
+        for tid in cfg.get("ids", IDS):
+            for reset in (False, True):
+                ev = {"op": "fill", "set": name, "pts": sets[name], "id": tid, "reset": reset}
+                if fdt != "float64":
+                    ev["dtype"] = fdt
+                evs.append(ev)
+    return evs
+
+
 _SCALARS = (int, float, str, bool, type(None))
 
 
@@ -535,6 +913,7 @@ def _snapshot(state):
         # the harness's own memo tables are path state too: along any explored path exactly the calls a fresh
         # execution of that path makes are made, whatever hidden state the implementation keeps between calls
         {k: set(state[k]) for k in ("seen_kl", "seen_df", "seen_dist") if k in state} if state.get("path_scoped_memo") else {},
+        set(state.get("probed", ())),
     )
 
 
@@ -554,6 +933,7 @@ def _restore(state, snap):
         kp.__dict__[k] = _cp(v)
     for k, v in snap[4].items():
         state[k] = set(v)
+    state["probed"] = set(snap[5])
 
 
 def enumerate_group(task, seed):
@@ -563,8 +943,9 @@ def enumerate_group(task, seed):
     cfg = task["cfg"]
     fam, dim, n, depth = cfg["family"], cfg["dim"], task["n"], task["depth"]
     validate_every = task.get("validate_every", 499 if cfg.get("plotly") == "full" else 199)
+    round3 = "axes" in cfg
     m = 4 if dim == 1 else 3
-    vals = family(fam, m)[0]
+    vals = None if round3 else family(fam, m)[0]
     ctx = Ctx(seed)
     st = ctx.stats
     violations = []
@@ -628,8 +1009,14 @@ def enumerate_group(task, seed):
     except Exception:
         deadline = None
     def explore_set(ms, scoped):
-        pts = [[vals[i] for i in cell] for cell in ms]
-        bev = {"op": "build", "pts": pts}
+        if round3:
+            pts = [[cfg["axes"][d][i] for d, i in enumerate(cell)] for cell in ms]
+            bev = {"op": "build", "pts": pts}
+            if cfg.get("build_dtype") not in (None, "float64"):
+                bev["dtype"] = cfg["build_dtype"]
+        else:
+            pts = [[vals[i] for i in cell] for cell in ms]
+            bev = {"op": "build", "pts": pts}
         state = SYS.init(cfg)
         # The memo tables (seen_kl / seen_df / seen_dist) skip repeated evaluations of kl_distance / to_plotly_dataframe
         # for count vectors already verified: a pure-function assumption about those read-only calls, validated by the
@@ -638,6 +1025,8 @@ def enumerate_group(task, seed):
         # hidden between read-only calls), the same point set is explored again with the memo tables as path state
         # (scoped=True): then every explored path makes exactly the calls of its fresh execution.
         state["path_scoped_memo"] = scoped or bool(task.get("path_scoped_memo"))
+        if state["path_scoped_memo"] or cfg.get("reads") == "all":
+            st["point_sets_explored_fully_path_scoped"] += 1
         ctx.marks = 0
         st["states"] += 1
         try:
@@ -652,9 +1041,9 @@ def enumerate_group(task, seed):
         if depth <= 0:
             leaf([bev], [o], nm)
             return
-        dfs(state, fill_events(state, fam, dim), 1, [bev], [o], nm)
+        dfs(state, fill_events3(state, cfg) if round3 else fill_events(state, fam, dim), 1, [bev], [o], nm)
 
-    for ms in point_sets(fam, dim, n)[lo:hi]:
+    for ms in (point_sets3(cfg, n) if round3 else point_sets(fam, dim, n))[lo:hi]:
         if deadline is not None and time.time() > deadline:
             st["deadline_cut"] += 1
             continue
@@ -686,8 +1075,112 @@ def _plan(tier, fam, dim, n, ub, lb):
     return 2, "min"
 
 
-def tasks(tier, seed):
+LB_BIND = (0.16, 1.0 / 6.0, 0.26, 0.4999, 0.5)  # int(lb * range) around the cell sizes 4, 8, 12 of the x8 axis
+DTYPE_COMBOS = (
+    # axis family, dtype of the build data, dtype of the fill data
+    ("negint", "int64", "int64"),
+    ("negint", "int64", "float64"),
+    ("negint", "float64", "int64"),
+    ("negint", "int32", "float32"),
+    ("wideint8", "int8", "int8"),
+    ("f32", "float32", "float32"),
+    ("f32", "float32", "float64"),
+    ("f32", "float64", "float32"),
+    ("affine", "float64", "float32"),
+)
+AXES_3D = [[0.0, 1.0, 3.0], [0.0, 1.0], [0.0, 1.0]]
+
+
+def _round3_groups(tier):
+    """Round-3 families -> list of (cfg, sizes, depth, extra task fields)."""
+    q = tier == "quick"
+    G = []
+
+    def mk(cid, fam, axes, ub, lb=2e-10, **kw):
+        c = {"id": "r3-" + cid, "family": fam, "dim": len(axes), "axes": axes, "count_ubound": ub, "lbound": lb,
+             "plotly": "min", "plotly_depth": 2, "mid_ulps": 4}
+        c.update(kw)
+        return c
+
+    def square(fam, dim):
+        return [axis_family(fam, 4 if dim == 1 else 3)] * dim
+
+    # (1) three dimensions: axis cycling 0, 1, 2 and back to 0 (needs 5 points on the 3x2x2 grid)
+    G.append((mk("3d-ub1", "int3d", AXES_3D, 1), [1, 2, 3] if q else [1, 2, 3, 4], 1, {"weight": 6}))
+    G.append((mk("3d-ub2", "int3d", AXES_3D, 2), [2] if q else [1, 2, 3, 4], 1, {"weight": 6}))
+    G.append((mk("3d-distinct-ub1", "int3d", AXES_3D, 1, distinct=True), [5] if q else [5, 6], 1, {"weight": 6}))
+    G.append((mk("3d-distinct-ub2", "int3d", AXES_3D, 2, distinct=True), [3] if q else [3, 4, 5], 1, {"weight": 6}))
+    ax = [axis_family("affine", 3), axis_family("affine", 3)[:2], axis_family("affine", 3)[:2]]
+    G.append((mk("3d-affine-ub1", "affine3d", ax, 1), [1, 2, 3] if q else [1, 2, 3, 4], 1, {"weight": 6}))
+    # (2) container dtypes of the build data and of the fill data
+    for fam, bdt, fdt in DTYPE_COMBOS:
+        for dim in (1, 2):
+            for ub in (1, 2):
+                if q and dim == 2 and ub == 2:
+                    continue
+                sizes = list(range(1, 6 if dim == 1 else 4)) if q else list(range(1, 7 if dim == 1 else 5))
+                extra = {}
+                if (fam, bdt, fdt, dim) == ("negint", "int64", "float64", 1):
+                    extra = {"path_scoped_memo": True, "weight": 8}  # memo tables as path state: every path = its fresh run
+                G.append((mk("%s-%s-to-%s-%dd-ub%d" % (fam, bdt, fdt, dim, ub), fam, square(fam, dim), ub,
+                             build_dtype=bdt, fill_dtype=fdt), sizes, 1 if q else 2, extra))
+    # (3) level 1e6 with spread 1e-3, scale 1e-13
+    for fam in ("big", "tiny"):
+        for dim in (1, 2):
+            for ub in (1, 2):
+                if q and dim == 2 and ub == 2:
+                    continue
+                sizes = list(range(1, 6 if dim == 1 else 4)) if q else list(range(1, 7 if dim == 1 else 5))
+                G.append((mk("%s-%dd-ub%d" % (fam, dim, ub), fam, square(fam, dim), ub), sizes, 1 if q else 2, {}))
+    # (4) count_ubound larger than the data: the tree is a single leaf
+    for dim in (1, 2):
+        G.append((mk("ub8-%dd" % dim, "int", square("int", dim), 8), list(range(1, 7 if dim == 1 else 5)), 1, {}))
+        G.append((mk("ub8-%dd-deep" % dim, "int", square("int", dim), 8), [2] if q else [2, 3], 2, {}))
+    # (5) cutpoint_proportion_lbound around the values at which int(lb * range) reaches a cell size
+    for lb in LB_BIND:
+        for ub in (1, 2):
+            if q and ub == 2:
+                continue
+            G.append((mk("lb%.4g-1d-ub%d" % (lb, ub), "x8", square("x8", 1), ub, lb=lb, lb_family=True), [2, 3, 4, 5], 1, {}))
+        G.append((mk("lb%.4g-2d-ub1" % lb, "x8", square("x8", 2), 1, lb=lb, lb_family=True), [2, 3] if q else [2, 3, 4], 1, {}))
+    # (6) every public reading after every call, nothing memoised, three call orders (fully path-scoped)
+    reads = dict(reads="all", sets=["shift", "mid", "mirror"], plotly="none")
+    for rot in (0, 1, 2):
+        G.append((mk("reads-1d-rot%d" % rot, "int", [[0.0, 1.0, 3.0]], 1, read_rot=rot, **reads),
+                  [2, 3] if (rot == 0 or not q) else [2], 2, {"weight": 60}))
+    G.append((mk("reads-1d-n4", "int", [[0.0, 1.0, 3.0]], 1, **reads), [4], 1, {"weight": 60}))
+    G.append((mk("reads-1d-ub2", "int", [[0.0, 1.0, 3.0]], 2, **reads), [3, 4], 1, {"weight": 60}))
+    G.append((mk("reads-2d", "int", [[0.0, 1.0, 3.0]] * 2, 1, **reads), [2, 3] if not q else [2], 1, {"weight": 60}))
+    G.append((mk("reads-3d", "int3d", AXES_3D, 1, **reads), [2] if q else [2, 3], 1, {"weight": 60}))
+    if not q:
+        G.append((mk("reads-1d-n4-deep", "int", [[0.0, 1.0, 3.0]], 1, **reads), [4], 2, {"weight": 60}))
+    return G
+
+
+def _round3_tasks(tier):
     out = []
+    for cfg, sizes, depth, extra in _round3_groups(tier):
+        nev = len(cfg.get("sets", SETS3)) * len(cfg.get("ids", IDS)) * 2
+        hist = sum(nev ** k for k in range(1, depth + 1))
+        w = extra.get("weight", 1)
+        for n in sizes:
+            nsets = len(point_sets3(cfg, n))
+            per_task = max(1, (120000 if tier == "quick" else 400000) // ((hist + 40) * w))
+            for lo in range(0, nsets, per_task):
+                hi = min(nsets, lo + per_task)
+                t = {
+                    "fn": "enumerate_group", "system": SYS.name, "cfg": cfg, "n": n, "depth": depth, "chunk": [lo, hi],
+                    "label": "%s|%s|n%d|d%d|%d-%d" % (SYS.name, cfg["id"], n, depth, lo, hi),
+                    "cost": (hi - lo) * (hist + 40) * w,
+                }
+                if extra.get("path_scoped_memo"):
+                    t["path_scoped_memo"] = True
+                out.append(t)
+    return out
+
+
+def tasks(tier, seed):
+    out = _round3_tasks(tier)
     cid = 0
     for dim, fams, sizes in ((1, FAMILIES_1D, range(1, 7)), (2, FAMILIES_2D, range(1, 5))):
         for fam in fams:
@@ -726,6 +1219,34 @@ REQUIRED = [
     "kl_equal_counts",
     "kl_unequal_counts",
     "plotly_with_count_differences",
+    # round 3 (none of these depends on VERIF_SEED: C08 draws no random numbers)
+    "trees_3d",
+    "splits_on_third_axis",
+    "splits_cycling_back_to_first_axis",
+    "builds_with_dtype_int64",
+    "builds_with_dtype_int32",
+    "builds_with_dtype_int8",
+    "builds_with_dtype_float32",
+    "split_trees_built_from_int64",
+    "split_trees_built_from_float32",
+    "fills_with_dtype_int64",
+    "fills_with_dtype_float32",
+    "fills_whose_dtype_differs_from_the_build_data",
+    "split_trees_at_level_1e6",
+    "split_trees_at_scale_1e-13",
+    "single_leaf_because_count_ubound_exceeds_data",
+    "lbound_cell_size_equals_bound",
+    "lbound_stopped_the_root",
+    "lbound_stopped_a_node_below_the_root",
+    "lbound_positive_but_not_binding",
+    "read_suites_in_order_listed",
+    "read_suites_in_order_reversed",
+    "read_suites_in_order_interleaved",
+    "reads_of_never_filled_ids",
+    "plotly_reference_side_is_a_filled_id",
+    "plotly_with_input_cols",
+    "plotly_with_max_depth_0",
+    "point_sets_explored_fully_path_scoped",
 ]
 
 
